@@ -281,6 +281,7 @@ func (p *player) waitFor(what string, cond func(*view) (bool, string)) bool {
 		t.Stop()
 	}
 	p.problem("harness-wait-timeout", what+": "+why)
+	p.timeout = 300 * time.Millisecond // the case is already lost; do not wait long again
 	return false
 }
 
